@@ -3,7 +3,7 @@
    regenerated from rpc.go; the dispatcher (events, hc, srv) is evaluated over the message
    numbering, dispatch switch and handler bodies regenerated from rpc.go / hotrestart.go. *)
 From Coq Require Import List NArith String.
-From Sam Require Import Gen.Tables Model.Bytes Model.Frame Proofs.FrameProofs.
+From Sam Require Import Gen.Tables Model.Bytes Model.Frame Proofs.FrameProofs Model.Lifecycle Proofs.LifecycleProofs.
 Import ListNotations.
 Open Scope list_scope.
 Open Scope N_scope.
@@ -57,6 +57,23 @@ Theorem C17_child_gone : forall rss, Forall (Forall req_ok) rss ->
   = List.concat (map (fun rs => List.concat (map (fun r => spec_events (fst r)) rs)) rss).
 Proof. exact srv_children. Qed.
 Print Assumptions C17_child_gone.
+
+(* the step "stop accepting new connections while keeping established ones" on a listener in any state: every connection
+   Accept has returned is kept, the listening socket is closed, no further connection is accepted ... *)
+Theorem C17_drain_step : forall s, let d := lstep true s LDrain in
+  lconns d = lconns s /\ bound d = false /\ lstep true d LAccept = d /\ lstopped d = lstopped s /\ phase d = phase s.
+Proof. exact drain_step. Qed.
+Print Assumptions C17_drain_step.
+
+(* ... and a serving listener's Serve returns once the kept connections have ended by themselves *)
+Theorem C17_drain_then_serve_returns : forall s, phase s = PServing ->
+  phase (lstep true (fold_left (lstep true) (repeat LConnEnd (lconns s)) (lstep true s LDrain)) LServeExit) = PReturned.
+Proof. exact drain_then_serve_returns. Qed.
+Print Assumptions C17_drain_then_serve_returns.
+
+Example C17_drain_after_accept :
+  let s := lrun true [LServeBegin; LBindOk; LAccept; LDrain] in lconns s = 1%nat /\ bound s = false /\ lstep true s LAccept = s.
+Proof. vm_compute. repeat split. Qed.
 
 (* non-vacuity: the documented hand-over of the child (admin, listeners, terminate) *)
 Example C17_handover :
